@@ -279,7 +279,7 @@ Reject(tx) ==
 
 AppendRec(rec) ==
     IF HasApp THEN [logs EXCEPT ![Len(logs)].recs = Append(@, rec)]
-    ELSE Append(logs, [recs |-> <<rec>>, st |-> "app", partial |-> FALSE])
+    ELSE Append(logs, [recs |-> <<rec>>, st |-> "app", partial |-> FALSE, syn |-> FALSE])
 
 \* pop the queue head and plan its record against lovl + tables
 PopAndPlan ==
@@ -347,7 +347,7 @@ AuxRecord ==
 \* steps of a commit: end_record then starts a new file)
 FlushLog ==
     /\ mode = "open" /\ HasApp
-    /\ logs' = [logs EXCEPT ![Len(logs)].st = "rq"]
+    /\ logs' = [logs EXCEPT ![Len(logs)].st = "rq", ![Len(logs)].syn = SyncWal]
     /\ durable' = IF SyncWal THEN Max(durable, MaxH(logs[Len(logs)].recs, 1)) ELSE durable
     /\ UNCHANGED <<hist, logical, calls, queue, nextCid, covl, lw, nextRid, rpos, lovl, cw,
                    lastEnacted, tabs, dtabs, flushedCq, mode, rcv, ncrash, naux, lastRec, rdr>>
@@ -357,7 +357,7 @@ FlushLog ==
 (* Commit worker: enact_logs(false) *)
 
 Rd == FileIdx("rd")
-Rq == FileIdx("rq")
+Rq == FileIdx("rq") \cup (IF "enact_unsynced" \in Mut THEN FileIdx("app") ELSE {})
 
 \* the record the next enact_logs call will read, and the file it is in
 NextToEnact ==
@@ -383,7 +383,7 @@ EnactBegin ==
        /\ n.r # 0
        /\ cw' = [pc |-> "writing", rec |-> logs[n.f].recs[n.r],
                  todo |-> DOMAIN logs[n.f].recs[n.r].w]
-       /\ logs' = IF logs[n.f].st = "rq" THEN [logs EXCEPT ![n.f].st = "rd"] ELSE logs
+       /\ logs' = IF logs[n.f].st \in {"rq", "app"} THEN [logs EXCEPT ![n.f].st = "rd"] ELSE logs
        /\ rpos' = n.r - 1
        /\ lovl' = IF "endread_first" \in Mut THEN LovlClean(lovl, logs[n.f].recs[n.r]) ELSE lovl
     /\ UNCHANGED <<hist, logical, calls, queue, nextCid, covl, lw, nextRid, lastEnacted,
@@ -425,7 +425,7 @@ EnactOne ==
           /\ tabs' = TabsApply(tabs, rec)
           /\ lovl' = LovlClean(lovl, rec)
           /\ lastEnacted' = rec.rid
-       /\ logs' = IF logs[n.f].st = "rq" THEN [logs EXCEPT ![n.f].st = "rd"] ELSE logs
+       /\ logs' = IF logs[n.f].st \in {"rq", "app"} THEN [logs EXCEPT ![n.f].st = "rd"] ELSE logs
        /\ rpos' = n.r
     /\ UNCHANGED <<hist, logical, calls, queue, nextCid, covl, lw, nextRid, cw, dtabs, flushedCq,
                    durable, mode, rcv, ncrash, naux, lastRec, rdr>>
@@ -447,6 +447,7 @@ FlushTables ==
 TruncateLog ==
     /\ mode = "open" /\ Fine
     /\ IF "truncate_any" \in Mut THEN Len(logs) > 0 /\ logs[1].st # "app" /\ cw.pc = "idle"
+       ELSE IF "trunc_unflushed" \in Mut THEN Len(logs) > 0 /\ logs[1].st = "cq"
        ELSE flushedCq > 0 /\ logs[1].st = "cq"
     /\ logs' = Tail(logs)
     /\ flushedCq' = IF flushedCq > 0 THEN flushedCq - 1 ELSE 0
@@ -530,14 +531,16 @@ Crash ==
 PowerLoss(keepLast, tornLast, mix) ==
     /\ "power" \in Feat /\ ncrash < MaxCrash /\ SyncWal
     /\ mode \in {"open", "err"} \/ ("crashrec" \in Feat /\ mode = "recovering")
-    /\ IF HasApp THEN keepLast \in 0..Len(logs[Len(logs)].recs) ELSE keepLast = 0
-    /\ tornLast => (HasApp /\ (keepLast < Len(logs[Len(logs)].recs) \/ (Fine /\ lw.pc = "planned")))
+    /\ LET U == {i \in 1..Len(logs) : ~logs[i].syn}
+           u == IF U = {} THEN 0 ELSE MinOf(U) IN
+       /\ IF u = 0 THEN keepLast = 0 /\ ~tornLast
+          ELSE /\ keepLast \in 0..Len(logs[u].recs)
+               /\ tornLast => (keepLast < Len(logs[u].recs) \/ (Fine /\ lw.pc = "planned"))
+       /\ logs' = IF u = 0 THEN logs
+                  ELSE SubSeq(logs, 1, u - 1) \o
+                       <<[logs[u] EXCEPT !.recs = SubSeq(@, 1, keepLast), !.partial = tornLast]>>
     /\ ncrash' = ncrash + 1
     /\ Volatile
-    /\ logs' = [i \in 1..Len(logs) |->
-                   IF i = Len(logs) /\ HasApp
-                   THEN [logs[i] EXCEPT !.recs = SubSeq(@, 1, keepLast), !.partial = tornLast]
-                   ELSE logs[i]]
     /\ tabs' = [l \in Loc |-> IF l \in mix THEN tabs[l] ELSE dtabs[l]]
     /\ dtabs' = tabs'
     /\ mode' = "crashed"
